@@ -206,6 +206,16 @@ def graphCmd (j : Json) : R Json := do
       let fwd ← parseFmt (← jget j "fwd"); let bwd ← parseFmt (← jget j "bwd")
       pure (Json.mkObj [("nodes", graphJson (simulateBackend fwd bwd g))])
   | "identity" => pure (Json.mkObj [("nodes", graphJson g), ("wf", Json.bool (Graph.wellFormed g))])
+  | "prune_nonfloat" =>
+      let r := pruneNonFloatI g
+      pure (Json.mkObj [("nodes", graphJson (IGraph.toGraph r)), ("ids", Json.arr (r.map fun x => jn x.id).toArray)])
+  | "prune_same" =>
+      let r := pruneSameScaleI (← jflt j "rtol") g
+      pure (Json.mkObj [("nodes", graphJson (IGraph.toGraph r)), ("ids", Json.arr (r.map fun x => jn x.id).toArray)])
+  | "prune_selected" =>
+      let ts ← (← jarr j "targets").toList.mapM fun v => match v.getStr? with | .ok s => pure s | .error e => .error e
+      let r := pruneSelectedI ts g
+      pure (Json.mkObj [("nodes", graphJson (IGraph.toGraph r)), ("ids", Json.arr (r.map fun x => jn x.id).toArray)])
   | "unit_scale" =>
       let user ← match j.getObjVal? "replace" with
         | .ok v => match v.getArr? with
